@@ -124,8 +124,10 @@ def wire_of(pts, dps):
 def assembled_case(run, h, pts, batch, rng, rp, i, pos=None):
     ctx = rng.randbytes(6)
     c = ctx_chal(ctx)
-    kind = ["all_max", "swapped", "random_digits", "foreign_digit_signature", "outside_range_link", "ten_proofs",
-            "eight_proofs", "digit_128_claim", "proof_under_attacker_key"][i % 9]
+    KINDS = ["all_max", "swapped", "random_digits", "foreign_digit_signature", "outside_range_link", "ten_proofs",
+             "eight_proofs", "digit_128_claim", "proof_under_attacker_key", "cancelling_sigma2_pair", "cancelling_claims",
+             "cancelling_scalar_commitments"]
+    kind = KINDS[i % len(KINDS)]
     ds = [rng.randrange(128) for _ in range(9)]
     if kind == "all_max":
         ds = [127] * 9
@@ -152,6 +154,31 @@ def assembled_case(run, h, pts, batch, rng, rp, i, pos=None):
         s1, s2 = a, a * (ax + ay * D) % Q
         dps[attacker_pos] = dict(cp, s1=s1 * r % Q, s2=(s2 + s1 * bf) * r % Q, k=k)
         claim[attacker_pos] = D
+    cancelling = kind.startswith("cancelling")
+    if cancelling:
+        # errors in TWO digit proofs that cancel when the nine relations are multiplied / added together without random
+        # weights; each digit proof alone is invalid
+        a, b = sorted(rng.sample(range(9), 2)) if pos is None else (pos, (pos + 1 + rng.randrange(8)) % 9)
+        if kind == "cancelling_sigma2_pair":
+            d_ = rand_nz(rng)
+            dps[a]["s2"] = (dps[a]["s2"] + d_) % Q
+            dps[b]["s2"] = (dps[b]["s2"] - d_) % Q
+        elif kind == "cancelling_scalar_commitments":
+            d_ = rand_nz(rng)
+            dps[a]["T"] = (dps[a]["T"] + d_) % Q
+            dps[b]["T"] = (dps[b]["T"] - d_) % Q
+        else:
+            # both proofs around the published signature on 0 with the SAME randomiser, claiming D and -D: the two pairing
+            # equations are off by opposite factors
+            D = rng.choice([1, 5, rand_nz(rng)])
+            pk = rp["pk"]
+            s1, s2 = rp["sigs"][0]
+            r = rand_nz(rng)
+            for j, m in ((a, D), (b, (Q - D) % Q)):
+                bf, kbf, k = rand_nz(rng), rand_nz(rng), rand_nz(rng)
+                cp = craft_cp(pk["g2"], pk["y2s"], [m], bf, kbf, [k], c)
+                dps[j] = dict(cp, s1=s1 * r % Q, s2=(s2 + s1 * bf) * r % Q, k=k)
+                claim[j], sigidx[j] = m, 0
     value = sum(claim[j] * 128 ** j for j in range(9))
     ksum = sum(dps[j]["k"] * pow(128, j, Q) for j in range(9)) % Q
     e = (c * value + ksum) % Q
@@ -184,7 +211,7 @@ def assembled_case(run, h, pts, batch, rng, rp, i, pos=None):
     # the property's predicate: accepted => every digit proof is about a published digit with its own signature,
     # and e is the response for a value in [0, 2^63)
     presented = [(claim[j], sigidx[j]) for j in range(9)] if kind != "swapped" else None
-    genuine = all(claim[j] == sigidx[j] and 0 <= claim[j] < 128 for j in range(9)) and attacker_pos is None
+    genuine = all(claim[j] == sigidx[j] and 0 <= claim[j] < 128 for j in range(9)) and attacker_pos is None and not cancelling
     if kind == "swapped":
         v_presented = sum(dps[j]["rs"][0] * pow(128, j, Q) for j in range(9)) % Q
         expect = genuine and v_presented == e
